@@ -26,6 +26,8 @@ CHECKS = {
             "No tie-break is demanded. Wrapper scores are recomputed from delivered rewards; GPO's schedule (N, phase length) comes from the published formula.", "§3 C07"),
     "C08": ("Run-level symbolic exploration of SOO / StoSOO / DOO with make_children wrapped per instance and a hook that inspects the tree right before every expansion: only evaluated (StoSOO: k-times) leaves are expanded, no unevaluated leaf at a depth <= the expanded one (DOO: anywhere), the expanded leaf has the highest value of its depth (DOO: of all leaves; values recomputed from the ledger, validity under the path condition), sweeps monotone, caps respected, each cell evaluated at most once / k times, the cell handed out is an unevaluated leaf with no shallower unevaluated leaf (StoSOO: a max-b leaf of its depth with < k evaluations), DOO one expansion per pull.",
             "In this implementation a sweep never contains two expansions (the layer below an expansion always holds fresh leaves), so the sweep-monotonicity clause is vacuous on the current tree; DOO default delta on a concrete box.", "§3 C08"),
+    "C11": ("Run-level symbolic exploration of Zooming on symbolic boxes, symbolic split draws and symbolic rewards: after every round z3 proves every active arm lies in its cell, the harness checks that the cells of the active arms are exactly the leaves of the partition (coverage), each pull returns an active arm whose index mean + 2 sqrt(8 phase/(2+pulls)) (reference phase clock, means from the ledger) is >= every other arm's, arm means/counts equal the history's, the cell is refined iff its radius <= nu rho^depth (both directions), and the other children receive fresh arms at their centres.",
+            "Phase clock of the reference: phase i lasts 2^i rounds; ties either way.", "§3 C11"),
 }
 
 NOT_YET = {}
